@@ -634,6 +634,8 @@ var nearMisses = []string{
 	// leading zeros are kept as written
 	"http://a.test:0/x", "http://a.test:00/x", "http://a.test:080/x", "https://a.test:0/x", "https://a.test:443/x", "http://a.test:443/x",
 	"http://[::1]:0/x", "http://[::1]/x", "http://[::1]:80/x",
+	// dot-segments are a matter of the path: "." and ".." between slashes in a query are data
+	"http://a.test/y?next=/../x", "http://a.test/y?next=/%2E%2E/x", "http://a.test/x?p=/.", "http://a.test/x?p=/./", "http://a.test/x?p=", "http://a.test/q/y?p=/../../x",
 }
 
 func (g *G) urlFor(res int, respell bool) string {
